@@ -3,6 +3,7 @@ import PyhmsVerif.Model.Repair
 import PyhmsVerif.Model.Problem
 import PyhmsVerif.Model.Select
 import PyhmsVerif.Model.TreeProto
+import PyhmsVerif.Model.R5S
 /-!
 Line-protocol driver: one operation per input line, one answer per output line.
 `lake env lean --run Driver.lean < ops.txt`
@@ -125,6 +126,13 @@ def handle : P String := do
         let s := (NBC.sortDesc mx (NBC.sortLex (List.zipIdx pop |>.map fun p => (p.2, p.1)))).take k
         showInds (NBC.spec mx dist s thr)
       | _, _ => "none")
+  | "r5s" => do
+    -- r5s <mx> <top_k> <n> <pop> <m*m distances, input order> <weighted sums, best-first order>
+    let mx ← bool; let k ← nat; let n ← nat; let pop ← list indP
+    let m ← rep (pop.length * pop.length) rat
+    let w ← list rat
+    let arr := m.toArray
+    pure (showInds (R5S.r5sD mx k n pop (fun i j => arr.getD (i * pop.length + j) 0) w))
   | "rnd" => do
     let x ← rat
     pure (showOpt showRat (F64.rnd x))
